@@ -53,13 +53,14 @@ func classify(prop string, h *History, calls []*CallObs, res *hx.Result) bool {
 		}
 		newSteps := 0
 		for _, ev := range c.Sprint.Events() {
-			switch t := ev.(type) {
-			case *events.FailureEvent:
+			if txt, ok := failureText(ev); ok {
 				special = true
-				res.Dist(fmt.Sprintf("failure:%d", failCode(t.Text)))
-				if failCode(t.Text) == 0 || failCode(t.Text) == 4 {
+				res.Dist(fmt.Sprintf("failure:%d", failCode(txt)))
+				if failCode(txt) == 0 || failCode(txt) == 4 {
 					nearLimit = true
 				}
+			}
+			switch t := ev.(type) {
 			case *events.RunExpiredEvent:
 				special = true
 				res.Dist("expired")
@@ -289,7 +290,7 @@ func oracleC05(h *History, ci int, c *CallObs, res *hx.Result, st5 *c05state) {
 		}
 		hitLimit := false
 		for _, ev := range c.Sprint.Events() {
-			if f, ok := ev.(*events.FailureEvent); ok && failCode(f.Text) == 0 {
+			if txt, ok := failureText(ev); ok && failCode(txt) == 0 {
 				hitLimit = true
 			}
 		}
@@ -300,7 +301,7 @@ func oracleC05(h *History, ci int, c *CallObs, res *hx.Result, st5 *c05state) {
 		if ci > 0 {
 			resumedNow := true
 			for _, ev := range c.Sprint.Events() {
-				if f, ok := ev.(*events.FailureEvent); ok && failCode(f.Text) == 4 {
+				if txt, ok := failureText(ev); ok && failCode(txt) == 4 {
 					resumedNow = false
 				}
 			}
@@ -374,8 +375,8 @@ func oracleC10(h *History, ci int, c *CallObs, res *hx.Result) {
 			// conditions that make resumption impossible end the session as failed with a failure event
 			impossible := false
 			for _, ev := range c.Sprint.Events() {
-				if f, ok := ev.(*events.FailureEvent); ok {
-					switch failCode(f.Text) {
+				if txt, ok := failureText(ev); ok {
+					switch failCode(txt) {
 					case 3, 4, 5, 6, 7:
 						impossible = true
 					}
